@@ -96,7 +96,9 @@ pub const COMPILE_FUEL: u64 = 2_000_000;
 /// Compile through the public API. Err(text) for a rejected pattern, panics are reported as Err("PANIC: ..").
 pub fn compile(cps: &[u32], fl: Fl, no_opt: bool) -> Result<Regex, String> {
     regress::verif::set_fuel(COMPILE_FUEL);
-    let r = catch_unwind(AssertUnwindSafe(|| Regex::from_unicode(cps.iter().copied(), fl.regress(no_opt))));
+    // the flag string carries documented-as-ignored letters for a deterministic subset of the patterns
+    let salt = cps.len() + cps.first().copied().unwrap_or(0) as usize;
+    let r = catch_unwind(AssertUnwindSafe(|| Regex::from_unicode(cps.iter().copied(), fl.regress_salted(no_opt, salt))));
     let rep = regress::verif::report();
     regress::verif::set_fuel(u64::MAX);
     if rep.exhausted {
